@@ -766,3 +766,302 @@ Proof.
       * simpl cs_num. apply chan_num_wrapped. exact Hf. apply Hr. left. reflexivity.
     + rewrite cs_from_paused. reflexivity.
 Qed.
+
+(* ------------------------------------------------------------------ no input crashes the process *)
+Lemma fold_res_ok : forall (A B : Type) (f : A -> B -> res A) (g : A -> B -> A) (l : list B) (a : A),
+  (forall x y, f x y = Ok (g x y)) -> fold_res f l a = Ok (fold_left g l a).
+Proof.
+  intros A B f g. induction l as [|b l IH]; intros a H; simpl. reflexivity.
+  rewrite H. simpl. apply IH. exact H.
+Qed.
+
+(* a loop that skips nil elements and dereferences the others *)
+Lemma fold_res_nonnil : forall (A B : Type) (f : A -> option B -> res A) (g : A -> B -> A) (l : list (option B)) (a : A),
+  (forall x, f x None = Ok x) -> (forall x y, f x (Some y) = Ok (g x y)) ->
+  fold_res f l a = Ok (fold_left g (nonnil l) a).
+Proof.
+  intros A B f g. induction l as [|b l IH]; intros a H0 H1; simpl. reflexivity.
+  destruct b as [y|].
+  - rewrite H1. simpl. apply IH; assumption.
+  - rewrite H0. simpl. apply IH; assumption.
+Qed.
+
+(* Producer.UnmarshalJSON: the bounds check makes the index expression safe *)
+Theorem pair_from_ok : forall topics tombs i, pair_from i topics tombs = Ok (pair_pure i topics tombs).
+Proof.
+  induction topics as [|t r IH]; intros tombs i; simpl. reflexivity.
+  assert ((if Nat.ltb i (length tombs) then index_bool tombs i else Ok false) = Ok (nth i tombs false)) as Hb.
+  { destruct (Nat.ltb_spec i (length tombs)) as [Hlt|Hge].
+    - unfold index_bool. destruct (nth_error tombs i) as [b|] eqn:E.
+      + f_equal. symmetry. apply nth_error_nth. exact E.
+      + apply nth_error_None in E. lia.
+    - rewrite nth_overflow by lia. reflexivity. }
+  rewrite Hb. simpl. rewrite IH. reflexivity.
+Qed.
+Theorem pair_tombstones_ok : forall topics tombs, pair_tombstones topics tombs = Ok (pair_pure 0 topics tombs).
+Proof. intros. apply pair_from_ok. Qed.
+Lemma pair_pure_length : forall topics tombs i, length (pair_pure i topics tombs) = length topics.
+Proof. induction topics as [|t r IH]; intros; simpl. reflexivity. rewrite IH. reflexivity. Qed.
+Lemma pair_pure_topics : forall topics tombs i, map fst (pair_pure i topics tombs) = topics.
+Proof. induction topics as [|t r IH]; intros; simpl. reflexivity. rewrite IH. reflexivity. Qed.
+
+Theorem lookupd_producers_ok : forall ups, lookupd_producers ups = Ok (lookupd_producers_pure ups).
+Proof.
+  intro ups. unfold lookupd_producers, lookupd_producers_pure.
+  rewrite (fold_res_ok _ _ _ (fun acc (u : bytes * list (option prod)) => fold_left (lp_step (fst u)) (nonnil (snd u)) acc)).
+  - reflexivity.
+  - intros x u. apply fold_res_nonnil; intros; reflexivity.
+Qed.
+Theorem topic_producers_ok : forall ups, topic_producers ups = Ok (topic_producers_pure ups).
+Proof.
+  intro ups. unfold topic_producers, topic_producers_pure.
+  rewrite (fold_res_ok _ _ _ (fun acc (u : bytes * list (option prod)) => fold_left ltp_step (nonnil (snd u)) acc)).
+  - reflexivity.
+  - intros x u. apply fold_res_nonnil; intros; reflexivity.
+Qed.
+
+Lemma e2e_unmarshal_ok : forall ps, e2e_unmarshal ps = Ok tt.
+Proof. induction ps as [|p r IH]; simpl. reflexivity. destruct p; simpl; exact IH. Qed.
+Lemma e2e_add_ok : forall e, e2e_add e = Ok tt.
+Proof. intros [x|]; reflexivity. Qed.
+
+Lemma kept_clients_ok : forall (node : bytes) (l : list (option client)) acc,
+  fold_res (fun acc p => bind (deref p) (fun cl => Ok (acc ++ [(node, cl)]))) (filter (fun p => negb (is_nil p)) l) acc =
+  Ok (acc ++ map (fun cl => (node, cl)) (nonnil l)).
+Proof.
+  intros node. induction l as [|p l IH]; intro acc; simpl.
+  - rewrite app_nil_r. reflexivity.
+  - destruct p as [cl|]; simpl.
+    + rewrite IH. rewrite <- app_assoc. reflexivity.
+    + apply IH.
+Qed.
+Lemma cagg_add_g_ok : forall c node host a, cagg_add_g c node host a = Ok (cagg_add c node host a).
+Proof.
+  intros c node host a. unfold cagg_add_g. rewrite e2e_add_ok. simpl. rewrite kept_clients_ok. reflexivity.
+Qed.
+
+Lemma clients_touch_ok : forall l, fold_res (fun (_ : unit) cl => client_touch cl) l tt = Ok tt.
+Proof. induction l as [|p l IH]; simpl. reflexivity. destruct p; simpl; exact IH. Qed.
+
+Lemma update_as_set : forall key mk f m,
+  cmap_update key mk f m =
+  let v := f (match cmap_find key m with Some v => v | None => mk tt end) in
+  cmap_update key (fun _ => v) (fun _ => v) m.
+Proof.
+  intros key mk f. induction m as [|[k v] m IH]; simpl. reflexivity.
+  destruct (bytes_eqb k key); simpl. reflexivity. rewrite IH. reflexivity.
+Qed.
+
+Lemma proc_chan_g_ok : forall p sel tname cm pc,
+  proc_chan_g p sel tname cm pc = Ok (match pc with Some c => proc_chan p sel tname cm c | None => cm end).
+Proof.
+  intros p sel tname cm [c|]; [|reflexivity].
+  unfold proc_chan_g. cbn [is_nil deref bind]. rewrite clients_touch_ok. cbn [bind].
+  rewrite cagg_add_g_ok. cbn [bind].
+  unfold proc_chan. f_equal. symmetry.
+  apply (update_as_set (chan_key sel tname (ch_name c))
+           (fun _ => mkCA (p_addr p) tname (ch_name c) cn_zero false [] [])
+           (fun v => cagg_add v (p_addr p) (p_hostname p) c) cm).
+Qed.
+Lemma proc_chans_g_ok : forall p sel tname l cm,
+  fold_res (proc_chan_g p sel tname) l cm = Ok (fold_left (proc_chan p sel tname) (nonnil l) cm).
+Proof.
+  intros p sel tname l cm. apply fold_res_nonnil; intros; rewrite proc_chan_g_ok; reflexivity.
+Qed.
+Lemma proc_topic_g_ok : forall p sel st pt,
+  proc_topic_g p sel st pt = Ok (match pt with Some t => proc_topic p sel st t | None => st end).
+Proof.
+  intros p sel st [t|]; [|reflexivity].
+  unfold proc_topic_g. cbn [is_nil deref bind].
+  unfold proc_topic. destruct (sel_skips sel (tp_name t)). reflexivity.
+  rewrite proc_chans_g_ok. reflexivity.
+Qed.
+Lemma decode_e2e_chan_ok : forall pc, decode_e2e_chan pc = Ok tt.
+Proof. intros [c|]; simpl; [|reflexivity]. destruct (ch_e2e c); [apply e2e_unmarshal_ok|reflexivity]. Qed.
+Lemma decode_e2e_topic_ok : forall pt, decode_e2e_topic pt = Ok tt.
+Proof.
+  intros [t|]; simpl; [|reflexivity].
+  assert ((match tp_e2e t with Some ps => e2e_unmarshal ps | None => Ok tt end) = Ok tt) as H.
+  { destruct (tp_e2e t); [apply e2e_unmarshal_ok|reflexivity]. }
+  rewrite H. simpl.
+  induction (tp_chans t) as [|c l IH]; simpl. reflexivity. rewrite decode_e2e_chan_ok. simpl. exact IH.
+Qed.
+Lemma decode_all_ok : forall (l : list (option topic)), fold_res (fun (_ : unit) t => decode_e2e_topic t) l tt = Ok tt.
+Proof. induction l as [|t l IH]; simpl. reflexivity. rewrite decode_e2e_topic_ok. simpl. exact IH. Qed.
+
+(* GetNSQDStats with every dereference explicit never panics and computes the plain function *)
+Theorem nsqd_stats_ok : forall ups sel, nsqd_stats ups sel = Ok (nsqd_stats_pure ups sel).
+Proof.
+  intros ups sel. unfold nsqd_stats, nsqd_stats_pure.
+  rewrite (fold_res_ok _ _ _ (fun st (u : pinfo * list (option topic)) => fold_left (proc_topic (fst u) sel) (nonnil (snd u)) st)).
+  - reflexivity.
+  - intros st u. rewrite decode_all_ok. simpl. apply fold_res_nonnil; intros; rewrite proc_topic_g_ok; reflexivity.
+Qed.
+
+(* the handler-side merge: a null channel inside a selected topic is a recovered panic (500),
+   never a crash *)
+Definition has_null_chan (nodes : list tnode) : bool := existsb (fun a => existsb is_nil (tn_chans a)) nodes.
+
+Lemma merge_fold_g : forall l cs,
+  fold_res (fun cs pc => match pc with Some c => Ok (merge_chan cs c) | None => Recovered end) l cs =
+  if existsb is_nil l then Recovered else Ok (fold_left merge_chan (nonnil l) cs).
+Proof.
+  induction l as [|pc l IH]; intro cs; simpl. reflexivity.
+  destruct pc as [c|]; simpl.
+  - rewrite IH. reflexivity.
+  - reflexivity.
+Qed.
+Lemma tagg_add_g_spec : forall t a,
+  tagg_add_g t a = if existsb is_nil (tn_chans a) then Recovered else Ok (tagg_add t a).
+Proof.
+  intros t a. unfold tagg_add_g. rewrite merge_fold_g. destruct (existsb is_nil (tn_chans a)); reflexivity.
+Qed.
+Theorem tagg_fold_g_spec : forall nodes t,
+  fold_res tagg_add_g nodes t = if has_null_chan nodes then Recovered else Ok (fold_left tagg_add nodes t).
+Proof.
+  induction nodes as [|a nodes IH]; intro t; simpl. reflexivity.
+  rewrite tagg_add_g_spec. destruct (existsb is_nil (tn_chans a)); simpl. reflexivity. apply IH.
+Qed.
+
+(* ------------------------------------------------------------------ the views *)
+Definition not_crash {A : Type} (r : res A) : Prop := r <> Crash.
+
+Lemma two_stage_spec : forall (V : Type) producers stats_of sel (k : stats_state -> bool -> res (view V)),
+  two_stage producers stats_of sel k =
+  match producers with
+  | AHard => Ok (VStatus 502)
+  | AOk ps n1 =>
+      match nsqd_stats_pure (map (fun p => (p, stats_of p)) ps) sel with
+      | AHard => Ok (VStatus 502)
+      | AOk st n2 => k st (warn_of n1 || warn_of n2)
+      end
+  end.
+Proof.
+  intros. unfold two_stage. destruct producers as [|ps n1]. reflexivity.
+  rewrite nsqd_stats_ok. reflexivity.
+Qed.
+
+(* /api/topics/:topic *)
+Theorem topic_view_spec : forall producers stats_of t,
+  topic_view producers stats_of t =
+  match producers with
+  | AHard => Ok (VStatus 502)
+  | AOk ps n1 =>
+      match nsqd_stats_pure (map (fun p => (p, stats_of p)) ps) t with
+      | AHard => Ok (VStatus 502)
+      | AOk st n2 => if has_null_chan (fst st) then Recovered
+                     else Ok (VOk (tagg_of (fst st)) (warn_of n1 || warn_of n2))
+      end
+  end.
+Proof.
+  intros. unfold topic_view. rewrite two_stage_spec. destruct producers as [|ps n1]. reflexivity.
+  destruct (nsqd_stats_pure _ t) as [|st n2]. reflexivity.
+  rewrite tagg_fold_g_spec. destruct (has_null_chan (fst st)); reflexivity.
+Qed.
+
+Theorem channel_view_spec : forall producers stats_of t c,
+  channel_view producers stats_of t c =
+  match producers with
+  | AHard => Ok (VStatus 502)
+  | AOk ps n1 =>
+      match nsqd_stats_pure (map (fun p => (p, stats_of p)) ps) t with
+      | AHard => Ok (VStatus 502)
+      | AOk st n2 => match cmap_find c (snd st) with
+                     | Some v => Ok (VOk v (warn_of n1 || warn_of n2))
+                     | None => Recovered
+                     end
+      end
+  end.
+Proof. intros. unfold channel_view. rewrite two_stage_spec. reflexivity. Qed.
+
+Theorem counter_view_spec : forall producers stats_of,
+  counter_view producers stats_of =
+  match producers with
+  | AHard => Ok (VStatus 502)
+  | AOk ps n1 =>
+      match nsqd_stats_pure (map (fun p => (p, stats_of p)) ps) [] with
+      | AHard => Ok (VStatus 502)
+      | AOk st n2 => Ok (VOk (fold_left (fun acc r => counter_addrow r acc) (counter_rows (snd st)) []) (warn_of n1 || warn_of n2))
+      end
+  end.
+Proof. intros. unfold counter_view. rewrite two_stage_spec. reflexivity. Qed.
+
+Lemma bind_not_crash : forall (A B : Type) (r : res A) (f : A -> res B),
+  r <> Crash -> (forall a, f a <> Crash) -> bind r f <> Crash.
+Proof. intros A B r f H1 H2. destruct r; simpl. apply H2. contradiction. discriminate. Qed.
+
+Lemma fold_res_not_crash : forall (A B : Type) (f : A -> B -> res A) (l : list B) (a : A),
+  (forall x y, f x y <> Crash) -> fold_res f l a <> Crash.
+Proof.
+  intros A B f. induction l as [|b l IH]; intros a H; simpl. discriminate.
+  apply bind_not_crash. apply H. intro a'. apply IH. exact H.
+Qed.
+
+(* C18_no_panic: whatever the upstreams answer -- nulls, missing aggregates, more topics than
+   tombstone flags -- none of the views takes the process down *)
+Theorem views_never_crash :
+  (forall producers stats_of t, topic_view producers stats_of t <> Crash) /\
+  (forall producers stats_of t c, channel_view producers stats_of t c <> Crash) /\
+  (forall producers stats_of, counter_view producers stats_of <> Crash) /\
+  (forall producers stats_of node, node_view producers stats_of node <> Crash) /\
+  (forall mode ups direct, nodes_view mode ups direct <> Crash) /\
+  (forall ups, lookupd_producers ups <> Crash) /\
+  (forall ups, topic_producers ups <> Crash) /\
+  (forall ups sel, nsqd_stats ups sel <> Crash) /\
+  (forall topics tombs, pair_tombstones topics tombs <> Crash).
+Proof.
+  repeat split.
+  - intros. rewrite topic_view_spec. destruct producers; [discriminate|].
+    destruct (nsqd_stats_pure _ t); [discriminate|]. destruct (has_null_chan _); discriminate.
+  - intros. rewrite channel_view_spec. destruct producers; [discriminate|].
+    destruct (nsqd_stats_pure _ t); [discriminate|]. destruct (cmap_find c _); discriminate.
+  - intros. rewrite counter_view_spec. destruct producers; [discriminate|].
+    destruct (nsqd_stats_pure _ []); discriminate.
+  - intros. unfold node_view. destruct producers as [|ps n1]; [discriminate|].
+    destruct (find _ ps) as [p|]; [|discriminate].
+    rewrite nsqd_stats_ok. simpl. destruct (nsqd_stats_pure _ []) as [|st n2]; [discriminate|].
+    apply bind_not_crash.
+    + apply fold_res_not_crash. intros acc ts. apply bind_not_crash.
+      * apply fold_res_not_crash. intros a [c|]; discriminate.
+      * intros; discriminate.
+    + intros; discriminate.
+  - intros. unfold nodes_view. destruct mode.
+    + rewrite lookupd_producers_ok. simpl. destruct (lookupd_producers_pure ups); discriminate.
+    + destruct direct; discriminate.
+  - intros. rewrite lookupd_producers_ok. discriminate.
+  - intros. rewrite topic_producers_ok. discriminate.
+  - intros. rewrite nsqd_stats_ok. discriminate.
+  - intros. rewrite pair_tombstones_ok. discriminate.
+Qed.
+
+(* status and warning of the two-stage views: 502 iff one of the stages got no answer at all,
+   a warning iff some upstream of either stage failed, and the value is computed from the
+   answering upstreams only *)
+Theorem two_stage_status : forall (V : Type) (producers : agg (list pinfo)) stats_of sel (k : stats_state -> bool -> res (view V)),
+  (forall st w, exists v, k st w = Ok (VOk v w)) ->
+  match producers with
+  | AHard => two_stage producers stats_of sel k = Ok (VStatus 502)
+  | AOk ps n1 =>
+      let ups := map (fun p => (p, stats_of p)) ps in
+      ((forall u, In u ups -> failed u = true) -> two_stage producers stats_of sel k = Ok (VStatus 502)) /\
+      (~ (forall u, In u ups -> failed u = true) ->
+         exists v, two_stage producers stats_of sel k = Ok (VOk v (warn_of n1 || warn_of (nfailed ups))) /\
+                   k (stats_value (ok_part ups) sel) (warn_of n1 || warn_of (nfailed ups)) = Ok (VOk v (warn_of n1 || warn_of (nfailed ups))))
+  end.
+Proof.
+  intros V producers stats_of sel k Hk. destruct producers as [|ps n1].
+  - reflexivity.
+  - cbv zeta. rewrite two_stage_spec.
+    pose proof (partial_view _ (fun ans => fold_left (fun st (u : pinfo * list (option topic)) => fold_left (proc_topic (fst u) sel) (nonnil (snd u)) st) ans ([], []))
+                 (map (fun p => (p, stats_of p)) ps)) as [Hh Ho].
+    cbv zeta in Hh, Ho. fold (nsqd_stats_pure (map (fun p => (p, stats_of p)) ps) sel) in Hh, Ho.
+    split.
+    + intro Hall. apply Hh in Hall. rewrite Hall. reflexivity.
+    + intro Hn. destruct (nsqd_stats_pure (map (fun p => (p, stats_of p)) ps) sel) as [|st n2] eqn:E.
+      * exfalso. apply Hn. apply Hh. reflexivity.
+      * destruct (Ho st n2 eq_refl) as [H1 [H2 H3]]. subst n2.
+        destruct (Hk st (warn_of n1 || warn_of (nfailed (map (fun p => (p, stats_of p)) ps)))) as [v Hv].
+        exists v. split. exact Hv.
+        unfold error_rule in H1. destruct (Nat.eqb _ _); [discriminate|]. inversion H1 as [Hst].
+        unfold stats_value. rewrite Hst. exact Hv.
+Qed.
